@@ -694,6 +694,8 @@ def reqE : Expr K D → Nat → Bool
   | .sandwich bun ch _, s => reqE bun (s ^^^ 1) && reqE ch s && reqE bun s
   | .sandwichNone bun _, s => reqE bun (s ^^^ 1) && reqE bun s
   | .invEnabler a, s => reqE a s || reqE a (s ^^^ 2)
+  | .sumN args _, s => ((s &&& 2) == 0) && (args.map (reqE · s)).all id
+  | .chainN args, s => (args.map (reqE · s)).all id
   | _, _ => false
 
 section covered
@@ -723,6 +725,8 @@ def treeOK : Expr K D → Bool
       (match build S a with
        | .ok x => (List.range 4).all (fun s => (((cap x) &&& (1 <<< s)) != 0) == reqE a s)
        | .error _ => true)
+  | .sumN args _ => (args.map treeOK).all id
+  | .chainN args => (args.map treeOK).all id
   | _ => false
 
 end covered
